@@ -267,6 +267,20 @@ fn neighbour_of(kind: ReprKind, m: &WDg, how: &str, seed: u64) -> WDg {
         "order" => {
             let _ = n.v.insert(ids[ids.len() - 1].wrapping_add(1));
         }
+        "rename" if kind == ReprKind::Map => {
+            // the same digraph up to the id of ONE vertex (preferably one without in-arcs, renamed to a free
+            // id inside the id range): same order, same rows rank by rank, another vertex set
+            let no_in: Vec<usize> = ids.iter().copied().filter(|x| !m.a.keys().any(|&(_, w)| w == *x)).collect();
+            let x = if no_in.is_empty() { *rng.pick(&ids) } else { *rng.pick(&no_in) };
+            let (lo, hi) = (ids[0], ids[ids.len() - 1]);
+            let free: Vec<usize> = (lo..=hi.min(lo + 200)).filter(|y| !m.v.contains(y)).collect();
+            let y = if free.is_empty() { hi.wrapping_add(1 + rng.below(2)) } else { *rng.pick(&free) };
+            if !m.v.contains(&y) {
+                let f = |z: usize| if z == x { y } else { z };
+                n.v = m.v.iter().map(|&z| f(z)).collect();
+                n.a = m.a.iter().map(|(&(u, w), &wt)| ((f(u), f(w)), wt)).collect();
+            }
+        }
         _ => toggle_arc(&mut n, &mut rng),
     }
     n
@@ -310,7 +324,7 @@ impl Lane for C20 {
             "rand:tournament", "rand:erdos_renyi", "rand:recursive_tree", "model", "model", "derived:complement", "derived:converse", "derived:union"];
         let route_b = Route { start: (*rng.pick(&starts)).into(), seed: rng.next_u64(), detour: rng.range(0, maxlen) };
         let route_c = Route { start: (*rng.pick(&starts)).into(), seed: rng.next_u64(), detour: rng.range(0, 8) };
-        let neighbour = (*rng.pick(&["arc", "arc", "weight", "order"])).to_string();
+        let neighbour = (*rng.pick(&["arc", "arc", "weight", "order", "rename"])).to_string();
         let (l1, l2) = (rng.range(1, 12), rng.range(1, 12));
         let after_clone_original = valid_only(draw_steps(rng, kind, n, l1), kind.fixed_order());
         let after_clone_copy = valid_only(draw_steps(rng, kind, n, l2), kind.fixed_order());
